@@ -1846,6 +1846,14 @@ func (s *BgpServer) handleFSMMessage(peer *peer, e *fsmMsg) {
 					needStopNeighbor = true
 					return
 				}
+			} else {
+				// The long-lived timers are running from an earlier loss and
+				// are not restarted. What the session that came and went in
+				// between announced is stale like the rest: it gets the same
+				// treatment (NO_LLGR routes dropped, the others marked).
+				llgr, no_llgr := peer.llgrFamilies()
+				s.dropAdjRIBIn(peer, no_llgr)
+				s.propagateUpdate(peer, peer.markLLGRStale(llgr))
 			}
 		}
 
